@@ -72,6 +72,7 @@ TRANSLATORS = {
     "GenFields": "gen_fields",
     "GenLoops": "gen_loops",
     "GenPeriodic": "gen_periodic",
+    "GenRestore": "gen_restore",
 }
 
 
